@@ -30,7 +30,7 @@ import c13_fault
 META = {
     "category": "proof",
     "technique": "Coq model + theorems; differential runs against the extracted model; strace-recorded system calls replayed into crash images; EIO injected at every system call of Manifest::open (direct judgment)",
-    "text": "Coq theorems (Mani/Props_C13.v, closed under the global context) over an executable model of mani/src/lib.rs (Edit, writer, BufRead::lines, ManifestIterator::next, read_mani, open/_apply/rollover/verify) on a small file-system model with hard links and durable prefixes: a transition system of open/apply/rollover/close with a crash at ANY prefix of the mutating system calls of any operation (process death or power loss with arbitrary torn tails), any number of times; proved for all histories: reopening yields the acknowledged state or that plus the one whole edit in flight, or fails with corruption (never a panic, an I/O error, a lost acknowledged edit or a partial edit); crash-free reopen = fold of all edits; process-death crashes always reopen; the fragments chain and Manifest::verify reports nothing on any open manifest, also after crashes; parse(serialise) and iterator round trips; every truncation of a fragment reads as a prefix (>= the complete edits) or fails — no assumption on the checksum; the Edit API accepts exactly what the reader takes back (so the class 'strings containing every non-newline byte' of the property's quantifier is, since fix 23237de, REJECTED AT THE API — empty, non-ASCII and CR-terminated strings and the keys + - get `string-disallowed` — rather than stored: the theorems are over wf_str, and every run checks the rejection on the real code); a cut of MANIFEST in a directory with a history reopens to a prefix of the applied edits; the lock file is exclusive across processes; all u64 rollover ratios (saturating product).  Tied to the code on every run by differential runs (real Manifest vs extracted model vs independent Python oracle) incl. strace-recorded call sequences, crash images materialised from the recorded calls (re-opened twice), and real SIGKILL injections.",
+    "text": "Coq theorems (Mani/Props_C13.v, closed under the global context) over an executable model of mani/src/lib.rs (Edit, writer, BufRead::lines, ManifestIterator::next, read_mani, open/_apply/rollover/verify) on a small file-system model with hard links and durable prefixes: a transition system of open/apply/rollover/close with a crash at ANY prefix of the mutating system calls of any operation (process death or power loss with arbitrary torn tails), any number of times; proved for all histories: reopening yields the acknowledged state or that plus the one whole edit in flight, or fails with corruption (never a panic, an I/O error, a lost acknowledged edit or a partial edit); crash-free reopen = fold of all edits; process-death crashes always reopen; the fragments chain and Manifest::verify reports nothing on any open manifest, also after crashes; parse(serialise) and iterator round trips; every truncation of a fragment reads as a prefix (>= the complete edits) or fails — no assumption on the checksum; the Edit API accepts exactly what the reader takes back (so the class 'strings containing every non-newline byte' of the property's quantifier is, since fix 23237de, REJECTED AT THE API — empty, non-ASCII and CR-terminated strings and the keys + - get `string-disallowed` — rather than stored: the theorems are over wf_str, and every run checks the rejection on the real code); a cut of MANIFEST in a directory with a history reopens to a prefix of the applied edits; the lock file is exclusive across processes; all u64 rollover ratios (saturating product).  Tied to the code on every run by differential runs (real Manifest vs extracted model vs independent Python oracle) incl. strace-recorded call sequences, crash images materialised from the recorded calls (re-opened twice), and real SIGKILL injections. Stages open-fault and apply-fault: EIO injected at every system call of Manifest::open and of the last apply (roll-over included); the open fails or yields exactly the state, an apply under a fault leaves the state before the edit or the whole edit (with it when acknowledged), and inside an apply that returned the error no mutating call follows the failed one (the tie to the crash theorems).",
     "note": "Trusted: Coq kernel; extraction (ExtrOcamlBasic) + ocaml/mani driver (supplies crc32c); harness c13; strace; the OS semantics of Mani/Fs.v (completed calls atomic and ordered, link/rename/unlink/create durable on return, data durable up to the last fdatasync); single writer = theorem over the lock-file model Mani/Lock.v (fcntl record locks: one owning process, released when the process closes any descriptor of the file), exercised on two real processes; I/O faults and foreign file names in the directory are outside the model; unreadable strings (empty, non-ASCII, CR-terminated, keys + -) are rejected at the Edit API, not stored.",
 }
 
